@@ -8,7 +8,8 @@ CONSTANTS
   ArgPoints = {0, 1, 2}
   Conforming = FALSE
   Hooks <- SH_Hooks
+  Stores = {"full"}
   MaxChecks = @MaxChecks@
   Deviations = @Deviations@
-INVARIANTS Historyless SessSoundTime SessSoundPolicies SessComplete @Emit@
+INVARIANTS Historyless SessSoundPrincipals SessSoundTime SessSoundPolicies SessComplete @Emit@
 CHECK_DEADLOCK FALSE
